@@ -375,3 +375,44 @@ fn compress_literals(
         None
     }
 }
+
+/// Verification hooks (pass-through).
+#[cfg(zstd_rs_verif)]
+pub(crate) mod verif {
+    use crate::bit_io::BitWriter;
+    use alloc::vec::Vec;
+
+    pub fn encode_literal_length(len: u32) -> (u8, u32, usize) {
+        super::encode_literal_length(len)
+    }
+    pub fn encode_match_len(len: u32) -> (u8, u32, usize) {
+        super::encode_match_len(len)
+    }
+    pub fn encode_offset(len: u32) -> (u8, u32, usize) {
+        super::encode_offset(len)
+    }
+    pub fn encode_seqnum(seqnum: usize) -> Vec<u8> {
+        let mut writer = BitWriter::new();
+        super::encode_seqnum(seqnum, &mut writer);
+        writer.dump()
+    }
+    pub fn raw_literals(literals: &[u8]) -> Vec<u8> {
+        let mut out = Vec::new();
+        let mut writer = BitWriter::from(&mut out);
+        super::raw_literals(literals, &mut writer);
+        writer.flush();
+        out
+    }
+    /// the literals section `compress_literals` writes (with or without a previous table) and whether it
+    /// handed back a new table
+    pub fn compress_literals(
+        literals: &[u8],
+        last_table: Option<&crate::huff0::huff0_encoder::HuffmanTable>,
+    ) -> (Vec<u8>, Option<crate::huff0::huff0_encoder::HuffmanTable>) {
+        let mut out = Vec::new();
+        let mut writer = BitWriter::from(&mut out);
+        let table = super::compress_literals(literals, last_table, &mut writer);
+        writer.flush();
+        (out, table)
+    }
+}
